@@ -180,6 +180,29 @@ func FuncPkgPath(fn *ssa.Function) string {
 func (p *Program) AllFunctions() []*ssa.Function {
 	p.allOnce.Do(func() {
 		m := ssautil.AllFunctions(p.SSA)
+		// ssautil.AllFunctions misses unexported methods of generic types (they are
+		// only reachable through type-parameter method calls): add every function
+		// and method declared in the module's packages, with nested literals.
+		var addWithAnon func(f *ssa.Function)
+		addWithAnon = func(f *ssa.Function) {
+			if f == nil || m[f] {
+				return
+			}
+			m[f] = true
+			for _, a := range f.AnonFuncs {
+				addWithAnon(a)
+			}
+		}
+		for _, pkg := range p.Pkgs {
+			if pkg.TypesInfo == nil {
+				continue
+			}
+			for _, obj := range pkg.TypesInfo.Defs {
+				if fo, ok := obj.(*types.Func); ok {
+					addWithAnon(p.SSA.FuncValue(fo))
+				}
+			}
+		}
 		for f := range m {
 			p.allFns = append(p.allFns, f)
 		}
